@@ -389,7 +389,7 @@ var intRe = regexp.MustCompile(`\(?-?[0-9]+\)?`)
 
 func init() {
 	replayDrivers = append(replayDrivers, replayDriver{
-		match: func(n string) bool { return strings.Contains(n, "readyzHandler#WriteHeader.C09.readyz") },
+		match: func(n string) bool { return strings.Contains(n, "readyzHandler#") },
 		run: func(r *Report, o *Obligation, sr *SolveResult) ReplayResult {
 			out, conf := goReplay(r, "cmd/keymasterd", "keymasterd_replay_test.go", "TestVerifReplayReadyz", map[string]string{})
 			return ReplayResult{Confirmed: conf, Summary: replaySummary(out), Output: truncate(out, 4000), Driver: "TestVerifReplayReadyz (the model fixes which signer fields are nil; all four combinations are replayed)"}
@@ -517,6 +517,40 @@ func init() {
 		run: func(r *Report, o *Obligation, sr *SolveResult) ReplayResult {
 			out, conf := goReplay(r, "cmd/keymasterd", "keymasterd_u2f_replay_test.go", "TestVerifReplayU2FSimultaneousPresentation", map[string]string{})
 			return ReplayResult{Confirmed: conf, Summary: replaySummary(out), Output: truncate(out, 4000), Driver: "TestVerifReplayU2FSimultaneousPresentation (schedule of the model: a second presentation reads the challenge before the first one has removed it; 8 simultaneous presentations, repeated rounds)"}
+		},
+	})
+}
+
+func init() {
+	replayDrivers = append(replayDrivers, replayDriver{
+		match: func(n string) bool {
+			return (strings.HasPrefix(n, "certgen.VerifyIPRestrictedX509CertIP#nopanic") || strings.HasPrefix(n, "certgen.ExtractIPNetsFromIPRestrictedX509#nopanic"))
+		},
+		run: func(r *Report, o *Obligation, sr *SolveResult) ReplayResult {
+			out, conf := goReplay(r, "lib/certgen", "certgen_replay_test.go", "TestVerifReplayAddressExtensionNoPanic", map[string]string{})
+			return ReplayResult{Confirmed: conf, Summary: replaySummary(out), Output: truncate(out, 4000), Driver: "TestVerifReplayAddressExtensionNoPanic (shapes of the model: family identifiers of 0..3 octets, blocks whose bit length disagrees with their octets)"}
+		},
+	})
+}
+
+func init() {
+	replayDrivers = append(replayDrivers, replayDriver{
+		match: func(n string) bool {
+			return strings.Contains(n, "-committed") && (strings.Contains(n, "DeleteSigned#") || strings.Contains(n, "UpsertSigned#") || strings.Contains(n, "SaveUserProfile#") || strings.Contains(n, "DeleteUserProfile#"))
+		},
+		run: func(r *Report, o *Obligation, sr *SolveResult) ReplayResult {
+			out, conf := goReplay(r, "cmd/keymasterd", "keymasterd_storage_replay_test.go", "TestVerifReplayWritesAreCommitted", map[string]string{})
+			return ReplayResult{Confirmed: conf, Summary: replaySummary(out), Output: truncate(out, 4000), Driver: "TestVerifReplayWritesAreCommitted (history of the model: a writer returns nil without committing; the next read shows the old content)"}
+		},
+	})
+}
+
+func init() {
+	replayDrivers = append(replayDrivers, replayDriver{
+		match: func(n string) bool { return strings.Contains(n, "challenge-unexpired") },
+		run: func(r *Report, o *Obligation, sr *SolveResult) ReplayResult {
+			out, conf := goReplay(r, "cmd/keymasterd", "keymasterd_u2f_replay_test.go", "TestVerifReplayU2FChallengeExpired", map[string]string{})
+			return ReplayResult{Confirmed: conf, Summary: replaySummary(out), Output: truncate(out, 4000), Driver: "TestVerifReplayU2FChallengeExpired (state of the model: the stored challenge's ExpiresAt lies in the past and the janitor has not removed it; a software token answers it on the sign-response path)"}
 		},
 	})
 }
